@@ -318,12 +318,15 @@ def disp4(ctx) -> List[Ob]:
     ucfg = ctx.cfg(u)
     for r_ in [n for n in A.walk_no_nested(u.node) if isinstance(n, ast.Return) and n.value is not None]:
         srcs = []
-        if isinstance(r_.value, ast.Name):
-            for d_ in ucfg.reaching_defs(r_, r_.value.id):
+        from .common import strip_cast as _sc
+
+        rv_ = _sc(r_.value)
+        if isinstance(rv_, ast.Name):
+            for d_ in ucfg.reaching_defs(r_, rv_.id):
                 if d_.stmt is not None and isinstance(d_.stmt, ast.Assign):
-                    srcs.append(d_.stmt.value)
+                    srcs.append(_sc(d_.stmt.value))
         else:
-            srcs.append(r_.value)
+            srcs.append(rv_)
         for sv in srcs:
             key = "normalised input " + A.alpha_key(sv)
             okv = (isinstance(sv, ast.Attribute) and sv.attr == "body" and isinstance(sv.value, ast.Call) and (A.dotted(sv.value.func) or "") == "ast.parse") or (isinstance(sv, ast.Name) and sv.id in uparams)
@@ -987,6 +990,8 @@ def disp8(ctx) -> List[Ob]:
         xparams_ = [p.arg for p in rl.params if p.arg not in ("self", "cls")]
         vparam = xparams_[rl_obj.value_param] if rl_obj.value_param is not None and rl_obj.value_param < len(xparams_) else xparams_[0]
         lps = [lp for lp in A.walk_no_nested(rl.node) if isinstance(lp, ast.For)]
+        if not lps and rl_obj is not None:
+            lps = [rl_obj.loop]  # the scan is written as next(<generator>, default): read as the loop it abbreviates
         verdict_ = None
         if len(lps) == 1 and isinstance(lps[0].target, ast.Tuple) and len(lps[0].target.elts) == 2:
             lp = lps[0]
